@@ -230,6 +230,13 @@ def run_real(w, prog, trace, inner_checks, strict=False):
                         pn = OBS_PARAM.get(oname)
                         if pn in kw and kw[pn] is not None:
                             inner_checks.append((n, oname, canon(fn()), canon(kw[pn])))
+                    # spec oracle (documented constructor defaults): an omitted argument shows its documented default
+                    from translate.g1_settings import DOCUMENTED_CTOR_DEFAULTS as _DCD
+                    tab = _DCD.get(n) or (_DCD["*flag*"] if [p for p, _ in w.descs[n]["params"]] == ["state"] else {})
+                    for oname, fn in w.observers(n).items():
+                        pn = OBS_PARAM.get(oname)
+                        if pn in tab and pn not in kw:
+                            inner_checks.append((n, oname + "@omitted-arg", canon(fn()), tab[pn]))
                     run_real(w, body, trace, inner_checks, strict)
                     # … and again after the nested program finished normally
                     for oname, fn in w.observers(n).items():
